@@ -118,6 +118,21 @@ Definition two_bad : program :=
                   {| f_name := [103]; f_params := [n_b]; f_body := [Use n_b TArray; Use n_b TScalar] |} ];
      p_main := [] |}.
 
+(* the same with only f in error: function g(b) { b[1]=1 } *)
+Definition one_bad : program :=
+  {| p_natives := [];
+     p_funcs := [ {| f_name := [102]; f_params := [n_a]; f_body := [Use n_a TArray; Use n_a TScalar] |};
+                  {| f_name := [103]; f_params := [n_b]; f_body := [Use n_b TArray] |} ];
+     p_main := [] |}.
+
+(* function f(a) { a[1]=1; g(a) }  function g(b) { b[2]=1 }  BEGIN { f(x); y = 1 } : accepted *)
+Definition n_y : name := [121].
+Definition good_prog : program :=
+  {| p_natives := [];
+     p_funcs := [ {| f_name := [102]; f_params := [n_a]; f_body := [Use n_a TArray; Call [103] [ArgVar n_a]] |};
+                  {| f_name := [103]; f_params := [n_b]; f_body := [Use n_b TArray] |} ];
+     p_main := [Call [102] [ArgVar n_x]; Use n_y TScalar] |}.
+
 (* function f000(a) { f001(a) } ... function f<n-1>(a) { if (0) f000(z) }
    BEGIN { x[1]=1; f000(x); f<h>(x) } : a ring of n functions forwarding their
    parameter, the array type known only at the two callers in BEGIN *)
